@@ -47,11 +47,11 @@ Print Assumptions C19_no_namespace_unprefixed.
 Theorem C19_html_foreign_unprefixed :
   forall nm hn cdata st z name st' t,
     must_be_unprefixed hn (n_ns_of_name nm name) = true -> n_ns_of_name nm name <> n_no_ns nm ->
-    NoDup (map fst (fs_top (fs_push (hs_stack st) (declarations z)))) ->
+    NoDup (map fst (fs_top (fs_push (hs_stack st) (effective_declarations nm z name)))) ->
     hrender nm hn cdata st z (OStartTagOpen name) = HOk (st', t) ->
     t_text t = [60] ++ n_local nm name ++ [32] ++ s_xmlns ++ [61; 34] ++ n_ns_str nm (n_ns_of_name nm name) ++ [34]
     \/ (t_text t = [60] ++ n_local nm name
-        /\ assoc_p (n_empty_prefix nm) (fs_top (fs_push (hs_stack st) (declarations z))) = Some (n_ns_of_name nm name)).
+        /\ assoc_p (n_empty_prefix nm) (fs_top (fs_push (hs_stack st) (effective_declarations nm z name))) = Some (n_ns_of_name nm name)).
 Proof. exact html_foreign_unprefixed. Qed.
 Print Assumptions C19_html_foreign_unprefixed.
 
